@@ -9,9 +9,13 @@ VERIF = os.path.dirname(os.path.abspath(__file__))
 PROPS = ["C%02d" % i for i in range(1, 20)]
 
 
+SEEDROOT = os.path.join(VERIF, "seeded")
+
+
 def run_seed(seed):
-    d = os.path.join(VERIF, "seeded", seed)
-    wt = tempfile.mkdtemp(prefix="vw-%s-" % seed, dir="/tmp")
+    d = os.path.join(SEEDROOT, seed)
+    tag = seed.replace("/", "")
+    wt = tempfile.mkdtemp(prefix="vw-%s-" % tag, dir="/tmp")
     os.rmdir(wt)
     out = {"seed": seed, "applies": False, "detected_by": {}, "errors": {}}
     try:
@@ -31,7 +35,7 @@ def run_seed(seed):
         env = dict(os.environ, VERIF_REPO=wt, VERIF_NO_EVIDENCE="1")
         cache = None
         if touched_c:
-            cache = "/dev/shm/vcache-%s" % seed
+            cache = "/dev/shm/vcache-%s" % tag
             env["VERIF_CACHE"] = cache
         for prop in PROPS:
             q = subprocess.run(["/venv/bin/python", "-m", "sa.main", prop, "--tier", "quick"],
@@ -43,8 +47,8 @@ def run_seed(seed):
             elif q.returncode != 0:
                 out["errors"][prop] = q.stdout.strip().splitlines()[-1][:300] if q.stdout.strip() else "exit %d" % q.returncode
     finally:
-        if os.path.isdir("/dev/shm/vcache-%s" % seed):
-            shutil.rmtree("/dev/shm/vcache-%s" % seed, ignore_errors=True)
+        if os.path.isdir("/dev/shm/vcache-%s" % tag):
+            shutil.rmtree("/dev/shm/vcache-%s" % tag, ignore_errors=True)
         subprocess.call(["git", "-C", "/repo", "worktree", "remove", "--force", wt],
                         stdout=subprocess.DEVNULL, stderr=subprocess.DEVNULL)
         shutil.rmtree(wt, ignore_errors=True)
@@ -52,22 +56,30 @@ def run_seed(seed):
 
 
 def main():
-    seeds = sys.argv[1:] or sorted(os.listdir(os.path.join(VERIF, "seeded")))
-    seeds = [s for s in seeds if os.path.isdir(os.path.join(VERIF, "seeded", s))]
+    global SEEDROOT
+    args = sys.argv[1:]
+    external = None
+    if args[:1] == ["--from"]:       # triage of not yet imported seeds: --from <dir> <matrix.json> C07/c ...
+        SEEDROOT, external = args[1], args[2]
+        args = args[3:]
+    seeds = args or sorted(os.listdir(SEEDROOT))
+    seeds = [s for s in seeds if os.path.isdir(os.path.join(SEEDROOT, s))]
     results = {}
-    with ThreadPoolExecutor(max_workers=3) as ex:
+    with ThreadPoolExecutor(max_workers=4 if external else 3) as ex:
         for r in ex.map(run_seed, seeds):
             results[r["seed"]] = r
             own = r["seed"][:3]
             print(r["seed"], "applies" if r["applies"] else "NO-APPLY",
                   "own=%s" % ("yes" if own in r["detected_by"] else "no"),
                   r["detected_by"], r["errors"] or "", flush=True)
-    path = os.path.join(VERIF, "seeded", "MATRIX.json")
+    path = external or os.path.join(VERIF, "seeded", "MATRIX.json")
     old = {}
     if os.path.exists(path):
         old = json.load(open(path))
     old.update(results)
     json.dump(old, open(path, "w"), indent=1, sort_keys=True)
+    if external:
+        return
     for s, r in results.items():
         mp = os.path.join(VERIF, "seeded", s, "meta.json")
         m = json.load(open(mp))
